@@ -27,7 +27,57 @@ def slm_window(snap: dict, chans: list[dict]):
     return (set(snap["flags"]["slm_targets"]), cands.pop()) if len(cands) == 1 else "tie"
 
 
-def check_hamiltonian(ctx, seq, case=None) -> bool:
+class _TourAbandoned(Exception):
+    pass
+
+
+def config_tour(ctx, emu, rng, log: list) -> bool:
+    """Takes the emulator through noisy configurations and back to the default one: the emulator is then a
+    noiseless emulator of the same sequence again (configuration history, cf. 'configurations' in the quantifier)."""
+    from pulser_simulation import SimConfig
+
+    menu = [dict(noise="SPAM", eta=0.95, runs=3, samples_per_run=2),
+            dict(noise=("SPAM", "doppler"), eta=0.6, temperature=500.0, runs=2),
+            dict(noise="doppler", temperature=2000.0, runs=2),
+            dict(noise="amplitude", amp_sigma=0.3, laser_waist=40.0, runs=2),
+            dict(noise="dephasing", dephasing_rate=0.2),
+            dict(noise=("SPAM", "amplitude"), eta=0.8, amp_sigma=0.2, runs=2),
+            dict(noise="leakage", eff_noise_rates=[0.1], eff_noise_opers="leak"),
+            dict(noise="relaxation", relaxation_rate=0.1)]
+    done = 0
+    for _ in range(rng.randint(1, 3)):
+        kw = dict(rng.choice(menu))
+        how = rng.choice(["set", "set", "add"])
+        try:
+            if kw.get("eff_noise_opers") == "leak":
+                import qutip
+                kw["eff_noise_opers"] = [qutip.Qobj(np.diag([0.0, 0.0, 1.0]))]
+                kw["noise"] = ("leakage", "eff_noise")
+            cfg = SimConfig(**kw)
+            log.append([how, {k: (v if k != "eff_noise_opers" else "diag(0,0,1)") for k, v in kw.items()}])
+            (emu.set_config if how == "set" else emu.add_config)(cfg)
+            done += 1
+            ctx.count("config_tour_steps:" + "+".join([kw["noise"]] if isinstance(kw["noise"], str) else kw["noise"]))
+            if rng.random() < 0.5:
+                log.append(["get_hamiltonian", 0])
+                emu.get_hamiltonian(0)
+        except (NotImplementedError, ValueError, TypeError):
+            ctx.count("config_tour_step_refused")
+        except Exception:
+            # a noisy configuration that crashes is outside this property (it speaks of the noiseless emulator);
+            # what state the emulator is left in is undefined: the caller starts over with a fresh one
+            ctx.count("config_tour_step_crashed")
+            raise _TourAbandoned()
+    if rng.random() < 0.5:
+        log.append(["reset_config"])
+        emu.reset_config()
+    else:
+        log.append(["set", {}])
+        emu.set_config(SimConfig())
+    return done > 0
+
+
+def check_hamiltonian(ctx, seq, case=None, tour_rng=None) -> bool:
     """Returns True when the comparison actually took place."""
     from pulser_simulation import QutipEmulator
 
@@ -52,6 +102,23 @@ def check_hamiltonian(ctx, seq, case=None) -> bool:
         ctx.violation("emulator-raises", f"QutipEmulator.from_sequence raised {type(e).__name__}: {str(e)[:200]}",
                       f"emulator-raises:{type(e).__name__}", case=case)
         return False
+    if tour_rng is not None and tour_rng.random() < 0.4:
+        try:
+            with warnings.catch_warnings():
+                warnings.simplefilter("ignore")
+                log: list = []
+                if isinstance(case, dict):
+                    case["emulator_config_history"] = log
+                if config_tour(ctx, emu, tour_rng, log):
+                    ctx.count("emulators_reset_to_default_after_noisy_configs")
+        except _TourAbandoned:
+            with warnings.catch_warnings():
+                warnings.simplefilter("ignore")
+                emu = QutipEmulator.from_sequence(seq)
+        except Exception as e:
+            ctx.violation("config-history", f"configuring the emulator and resetting it raised {type(e).__name__}: "
+                          f"{str(e)[:200]}", f"config-history-raises:{type(e).__name__}", case=case)
+            return False
     # ---- states in use / ordering ------------------------------------------------------------------
     used = set()
     for c in chans:
